@@ -117,15 +117,21 @@ pub fn run(ctx: &Ctx) -> Outcome {
   let mut boundary: Vec<KeyCode> = vec![KeyCode::ESC, KeyCode::K1, largest];
   for c in [255u16, 256, 0x1ff, 0x2ff] { if let Some(k) = (0..=c).rev().filter_map(KeyCode::from_u16).next() { if !boundary.contains(&k) { boundary.push(k); } } }
   let evs: Vec<Event> = boundary.iter().flat_map(|k| vec![Event::Pressed(*k), Event::Released(*k)]).collect();
-  let maxlen = if q { 2 } else { 3 };
+  let maxlen = if q { 3 } else { 4 };
   let mut batches: Vec<Vec<Event>> = vec![vec![]];
   let mut level: Vec<Vec<Event>> = vec![vec![]];
   for _ in 0..maxlen { let mut next = vec![]; for b in &level { for e in &evs { let mut t = b.clone(); t.push(e.clone()); next.push(t); } } batches.extend(next.iter().cloned()); level = next; }
   let nb = batches.len();
   let r2: Vec<Option<(&'static str, String)>> = par_map(nb, ctx.threads, |i| check_batch(&batches[i]).err());
   for (i, r) in r2.into_iter().enumerate() { evals += 1; if batches[i].len() != 1 { nontrivial += 1; } if let Some((c, d)) = r { fails.push((c, d, json!({"batch": batches[i].iter().map(|e| format!("{:?}", e)).collect::<Vec<_>>()}))); } }
+  // (ii-b) long batches: n alternating events for n around every power of two up to 1025 (buffer / chunk thresholds)
+  for n in [4usize, 7, 8, 9, 15, 16, 17, 31, 32, 33, 63, 64, 65, 127, 128, 129, 255, 256, 257, 511, 512, 513, 1023, 1024, 1025] {
+    let b: Vec<Event> = (0..n).map(|i| { let k = boundary[i % boundary.len()]; if (i / boundary.len()) % 2 == 0 { Event::Pressed(k) } else { Event::Released(k) } }).collect();
+    evals += 1; nontrivial += 1;
+    if let Err((c, d)) = check_batch(&b) { fails.push((c, d, json!({"batch": b.iter().map(|e| format!("{:?}", e)).collect::<Vec<_>>()}))); }
+  }
   // (iii) read side: every sequence of record kinds up to the bound, then a sentinel
-  let maxseq = if q { 3 } else { 4 };
+  let maxseq = if q { 4 } else { 5 };
   let mut seqs: Vec<Vec<Kind>> = vec![vec![]];
   let mut level: Vec<Vec<Kind>> = vec![vec![]];
   for _ in 0..maxseq { let mut next = vec![]; for s in &level { for k in KINDS.iter() { let mut t = s.clone(); t.push(*k); next.push(t); } } seqs.extend(next.iter().cloned()); level = next; }
@@ -141,7 +147,7 @@ pub fn run(ctx: &Ctx) -> Outcome {
   o.cov("read_sequences", seqs.len() as u64);
   o.cov("read_sequences_with_foreign_records", skipped_kinds);
   o.cov("exhaustive", true);
-  o.cov("rule", format!("(i) every key code KeyCode::from_u16 knows x {{press, release}} as a one-event batch; (ii) every batch of length 0..={} over {} boundary codes x {{press, release}}; (iii) every sequence of length 0..={} over 9 record kinds (valid press/release, value 2/-1/3, EV_SYN, EV_MSC, EV_KEY with an unknown code, EV_SW) followed by a sentinel press. All inputs are distinct by construction; non-trivial = single-code batches (each a distinct code/value), multi-event or empty batches, and read sequences containing at least one record the reader must skip.", maxlen, boundary.len(), maxseq));
+  o.cov("rule", format!("(i) every key code KeyCode::from_u16 knows x {{press, release}} as a one-event batch; (ii) every batch of length 0..={} over {} boundary codes x {{press, release}}; (ii-b) long alternating batches of n events for n around every power of two up to 1025; (iii) every sequence of length 0..={} over 9 record kinds (valid press/release, value 2/-1/3, EV_SYN, EV_MSC, EV_KEY with an unknown code, EV_SW) followed by a sentinel press. All inputs are distinct by construction; non-trivial = single-code batches (each a distinct code/value), multi-event or empty batches, and read sequences containing at least one record the reader must skip.", maxlen, boundary.len(), maxseq));
   let sample_bytes = { let p = Pipe::new(); let mut w = DevInputWriter::verif_from_fd(p.w); w.send(&vec![Event::Pressed(KeyCode::A)]).ok(); p.drain().iter().map(|b| format!("{:02x}", b)).collect::<Vec<_>>().join("") };
   let sample_read = format!("{:?}", check_read_sequence(&[Kind::AutoRepeat, Kind::Syn, Kind::Press]));
   o.cov("samples", json!([{"batch": ["Pressed(A)"], "bytes": sample_bytes}, {"read_sequence": ["AutoRepeat", "Syn", "Press"], "check": sample_read}]));
